@@ -1,7 +1,7 @@
 (* C16 - Cascade replicas: source resolution terminates, never self, never quorum.
    Theorems only; model Procs/Repair.v (findBestStreamFrom, repairCascadeNode). *)
 From Coq Require Import ZArith NArith Bool List.
-From Mysync Require Import Gtid.Interval Gtid.GtidSet Base.Prog Base.ProgFacts Base.Config Procs.NodeOps Procs.ActiveNodes Procs.Switchover Procs.Repair Proofs.RepairProofs Proofs.PromotedProofs.
+From Mysync Require Import Gtid.Interval Gtid.GtidSet Base.Prog Base.ProgFacts Base.Config Procs.NodeOps Procs.ActiveNodes Procs.Switchover Procs.Repair Proofs.RepairProofs Proofs.PromotedProofs Procs.MgrQuorum Proofs.MgrQuorumProofs.
 Import ListNotations.
 Open Scope Z_scope.
 
@@ -50,3 +50,18 @@ Theorem C16_only_listed_hosts_are_promoted : forall cfg env sw mem tr o,
   forall e h, In e tr -> ev_call e = Sql h SSetWritable -> In h (se_active env).
 Proof. exact promoted_host_is_listed. Qed.
 Print Assumptions C16_only_listed_hosts_are_promoted.
+
+(* "cascade replicas are never counted towards quorum" - the manager's OWN quorum under manager_switchover
+   (checkQuorum): the verdict is a function of the entries of the HA hosts alone; what the two views hold for any other
+   host (cascade replicas, however many and whether reachable or not) has no influence, and neither count exceeds the
+   number of HA hosts *)
+Theorem C16_manager_quorum_ignores_cascade_replicas : forall ha db dcs db' dcs',
+  (forall h, In h ha -> assoc h db = assoc h db' /\ assoc h dcs = assoc h dcs') ->
+  manager_lost_quorum ha db dcs = manager_lost_quorum ha db' dcs'.
+Proof. exact manager_quorum_ignores_non_ha. Qed.
+Print Assumptions C16_manager_quorum_ignores_cascade_replicas.
+
+Theorem C16_manager_quorum_counts_ha_hosts_only : forall ha db dcs,
+  let '(w, v) := quorum_counts ha db dcs 0 0 in (0 <= v <= w /\ w <= Z.of_nat (length ha))%Z.
+Proof. exact manager_quorum_counts_at_most_ha. Qed.
+Print Assumptions C16_manager_quorum_counts_ha_hosts_only.
